@@ -3,6 +3,12 @@
 import json
 
 CLAIMED = {
+    "C09": {
+        "technique": "Lean 4 theorems over the translated locspec/calc_offset/to_bbox code and generated xy-loc/LocSpec tables + document-level correspondence of the positioning pipeline model",
+        "text": "Machine-checked proof (Lean 4), for all rational boxes, sizes, gaps and offsets: an element placed with |h |H |v |V sits beside the referenced box at exactly the gap and centred on the shared axis, its size unchanged (dir_h/H/v/V, dir_size); chains of any length stay exact (chainH_exact, by induction on the chain); the nine named locations and the four edge forms (positive / negative units, percent) denote the documented points (locspec_named, edge_offset_semantics, edge_points, ratio_ends); for every row of the generated xy-loc table, and for the default and cxy anchors, the solved box has the named anchor on the requested point (xy_loc_anchor_on_target, default_and_centre_anchor); scalar references and relative sizes take the box's values (scalarspec_values, size_adjust). The attribute-string pipeline that feeds these functions is a hand-written Lean model compared attribute-for-attribute with transform_str on generated reference documents; an independent reference calculator supplies replays.",
+        "note": "Exact rationals stand for f32 (generators stay on an exactness grid; percent forms are compared after the 3-decimal rounding). Group referents are exercised by the C08/C10 document streams, not here. Identifier classification is ASCII in the model.",
+        "design_ref": "DESIGN.md §7 C09",
+    },
     "C11": {
         "technique": "Lean 4 theorems over the Rust->Lean translated Position/BoundingBox code + correspondence of the hand-modelled element pipeline",
         "text": "Machine-checked proof (Lean 4) that the constraint solver — regenerated from position.rs on every run — returns the described box for every sufficient or over-specified consistent combination of start/end/centre/length on each axis, for all rational boxes and all shapes (extent_complete, to_bbox_complete, pairs_agree, circle_one_position_per_axis), and that the emitted attributes depend on the spelling only through that box (setPositionAttrs_congr). The string-level pipeline (shorthand expansion, attribute removal, AttrMap order) is a hand-written Lean model tied to the code by an attribute-for-attribute correspondence run; a spelling-pair oracle on transform_str supplies replays.",
